@@ -607,4 +607,136 @@ theorem refines_cont (l k : Nat) (n : Nat) (s s' : St) (hpc : 0 ≤ s.pc)
           (by simpa using hnn) h1
         simpa [absC] using this
 
+/-! ## `update`, `assign` -/
+
+theorem setInScope_abs (id : Nat) (x : String) (v : Val) (s s' : St) (h : (setInScope id x v).run s = (.ok (), s')) :
+    s'.pc = s.pc ∧ s'.data = s.data ∧ s'.linear = s.linear ∧ s'.addr = s.addr := by
+  vmsimp_at h [setInScope]
+  cases h
+  exact ⟨rfl, rfl, rfl, rfl⟩
+
+theorem refines_update (x : String) : StepRefines (.update x) := by
+  intro n s s' hpc hc hex
+  simp only [exec] at hex
+  cases hd : s.data with
+  | nil => vmsimp_at hex [hd]; cases hex
+  | cons v rest =>
+    cases v with
+    | none => vmsimp_at hex [hd]; cases hex
+    | some v =>
+      have hb : (do let t ← get
+                    match lexLookup t x with
+                    | some (id, _) => setInScope id x v
+                    | none => bindTop x v : M Unit).run { s with data := rest, pc := s.pc + 1 } = (.ok (), s') := by
+        vmsimp_at hex [hd]
+        vmsimp
+        exact hex
+      rw [run_get_bind] at hb
+      have habs : s'.pc = s.pc + 1 ∧ s'.data = rest ∧ s'.linear = s.linear ∧ s'.addr = s.addr := by
+        cases hl : lexLookup { s with data := rest, pc := s.pc + 1 } x with
+        | none =>
+          rw [hl] at hb
+          exact bindTop_abs x v _ s' hb
+        | some r =>
+          obtain ⟨id, w⟩ := r
+          rw [hl] at hb
+          exact setInScope_abs id x v _ s' hb
+      obtain ⟨h1, h2, h3, h4⟩ := habs
+      have := CStep.simple (f := fnB s s.curfunc) (absC s) _ 1 0 [cellOf (some v)] (rest.map cellOf) (fetchB hc) rfl
+        (by simp [absC, hd]) rfl
+      simpa [absC, pc_succ hpc, h1, h2, h3, h4] using this
+
+theorem refines_assign : StepRefines .assign := by
+  intro n s s' hpc hc hex
+  simp only [exec] at hex
+  cases hd : s.data with
+  | nil => vmsimp_at hex [hd]; cases hex
+  | cons r rest1 =>
+    cases r with
+    | none => vmsimp_at hex [hd]; cases hex
+    | some r =>
+      cases rest1 with
+      | nil => vmsimp_at hex [hd]; cases hex
+      | cons l rest =>
+        cases l with
+        | none => vmsimp_at hex [hd]; cases hex
+        | some l =>
+          have hb : (do let t ← get
+                        match l, r with
+                        | .arr a, .arr b => if (t.heap.get a).isEmpty ∧ (t.heap.get b).isEmpty then pushData r else err
+                        | _, _ => err : M Unit).run { s with data := rest, pc := s.pc + 1 } = (.ok (), s') := by
+            vmsimp_at hex [hd]
+            vmsimp
+            exact hex
+          rw [run_get_bind] at hb
+          have hres : plain r = true ∧ s' = { s with data := some r :: rest, pc := s.pc + 1 } := by
+            split at hb
+            · rename_i a b
+              split at hb
+              · vmsimp_at hb
+                cases hb
+                exact ⟨rfl, rfl⟩
+              · vmsimp_at hb
+                cases hb
+            · vmsimp_at hb
+              cases hb
+          obtain ⟨hp, rfl⟩ := hres
+          have := CStep.simple (f := fnB s s.curfunc) (absC s) _ 2 1 [cellOf (some r), cellOf (some l)] (rest.map cellOf)
+            (fetchB hc) rfl (by simp [absC, hd]) rfl
+          simpa [absC, pc_succ hpc, cellOf_plain hp] using this
+
+/-! ## Summary -/
+
+/-- **exec_refines**, full statement: every successful `VM.exec` step taken in the code of the
+current function is a step of the stack-effect machine of that function, as the checker sees it,
+between the abstractions of the two states — provided the step stays in the activation (a call
+has returned: same function, same address depth; `ret` leaves the activation and is the end of
+the run of the stack-effect machine, `Bal.AtRet`). -/
+def ExecRefines : Prop :=
+  ∀ (i : Instr) (n : Nat) (s s' : St), 0 ≤ s.pc → (fnOf s s.curfunc).code[s.pc.toNat]? = some i →
+    (exec (n + 1) i).run s = (.ok (), s') → s'.curfunc = s.curfunc → s'.addr.length = s.addr.length → 0 ≤ s'.pc →
+    CStep (fnB s s.curfunc) (absC s) (absC s')
+
+/-- the instructions for which the refinement is proved unconditionally (`StepRefines`): every
+instruction of the model but `push` of a stack-mark value (never generated), `envToStack`,
+`tailGuard`, `prepareCall`, `brk`, `cont` — proved with the side condition each needs
+(`refines_envToStack`: no stack-mark is bound to a name; `refines_tailGuard`: the skip target lies
+inside the function; `refines_prepareCall`: compiled code; `refines_brk`/`refines_cont`: the new
+pc is not negative) — and `callArr`, `callExpr` (the calling contract: needs the induction over
+nested runs), `ret` (leaves the activation). -/
+theorem exec_refines_partial (i : Instr)
+    (h : match i with
+      | .push v => plain v = true
+      | .envToStack _ | .tailGuard _ _ | .prepareCall _ _ | .brk _ _ | .cont _ _
+      | .callArr _ | .callExpr _ _ | .ret => False
+      | _ => True) : StepRefines i := by
+  cases i with
+  | push v => exact refines_push v h
+  | pop => exact refines_pop
+  | dup => exact refines_dup
+  | envToStack x => exact absurd h id
+  | popStackPutEnv x => exact refines_popStackPutEnv x
+  | update x => exact refines_update x
+  | callArr n => exact absurd h id
+  | callExpr c a => exact absurd h id
+  | jump off => exact refines_jump off
+  | goto loc => exact refines_goto loc
+  | branch d off => exact refines_branch d off
+  | ret => exact absurd h id
+  | addScope => exact refines_addScope
+  | addFuncScope t => exact refines_addFuncScope t
+  | removeScope => exact refines_removeScope
+  | createClosure t => exact refines_createClosure t
+  | prepareCall x n => exact absurd h id
+  | tailGuard x k => exact absurd h id
+  | pushLazy e => exact refines_pushLazy e
+  | loopStart l => exact refines_loopStart l
+  | label => exact refines_label
+  | pushMark l => exact refines_pushMark l
+  | popUntilMark l => exact refines_popUntilMark l
+  | clearMark l => exact refines_clearMark l
+  | brk l k => exact absurd h id
+  | cont l k => exact absurd h id
+  | assign => exact refines_assign
+
 end ZygoVerif.Refine
